@@ -130,6 +130,7 @@ def execute(program, ctx, mode):
     rawtags = {}        # iface label -> {tag: generated number}
     invs = {}           # iface label -> [(stub, fails)]
     inv_calls = []
+    inv_tagged = set()  # iface labels whose 'invariants' tag holds an empty collection
     classes = []        # real classes of impl nodes
     counters = {'I': 0, 'D': 0, 'fresh': 0}
 
@@ -336,6 +337,12 @@ def execute(program, ctx, mode):
             I.setTaggedValue(t, tagval(lbl, t, v))
         if iiv:
             I.setTaggedValue('invariants', [mk_inv(lbl, j, f) for j, f in enumerate(iiv)])
+        elif h64(program.get('seed') or 0, lbl, 'empty-invariants-collection') % 4 == 0:
+            # the tag is there but holds an empty collection (its only invariant was taken out again): the invariants of the
+            # farther ancestors must run all the same
+            I.setTaggedValue('invariants', [] if h64(lbl, 'inv-list') % 2 else ())
+            inv_tagged.add(lbl)
+            ctx.probe('empty-invariants-collection')
         reg(lbl, I, 'I', mb)
         if spy_world:
             spy = AttrSpy(lbl, I)
@@ -701,7 +708,7 @@ def execute(program, ctx, mode):
             union = set()
             for x in I.__iro__:
                 union |= set((tags.get(label.get(id(x))) or {}))
-                if invs.get(label.get(id(x))):
+                if invs.get(label.get(id(x))) or label.get(id(x)) in inv_tagged:
                     union.add('invariants')
             if set(I.getTaggedValueTags()) != union:
                 ctx.violation('C15', 'tags', 'C15|getTaggedValueTags', {'iface': s, 'got': sorted(I.getTaggedValueTags()), 'want': sorted(union)})
